@@ -272,7 +272,17 @@ def _run_pure(job):
             if job["seed"] is not None:  # (for seed=None the drawn seed differs between the model run and a real run by design)
                 ctx.notes["sig"] = d1
             ctx.notes["seeds_seen"] = sorted({f"{a}:{b}" for a, b in env.m.seeds})
-            return obs
+        # outside the model: the unpatched library after two very different real pre-histories (RNG use, failed calls, hundreds of other mazes)
+        from symx import harness as _H
+
+        with _H.unpatched():
+            try:
+                real = _replay_pure_inner(job)
+            except ValueError as e:
+                real = None if ("no valid start or end positions" in str(e) or "larger sample" in str(e)) else f"ValueError {e}"
+        ctx.notes["real"] = real
+        obs.append(("the unpatched library generates the same dataset after two different real pre-histories", z3.BoolVal(real is None)))
+        return obs
 
     return run
 
@@ -301,6 +311,16 @@ def _prehistory(k):
     torch.rand(1 + k)
     if k:
         _library_history()
+        # many small percolation mazes: every connection structure of the 2x2 grid and a good part of those of the 3x3 grid have been
+        # generated (with other start cells / components) before the measured generation
+        from maze_dataset.generation.generators import GENERATORS_MAP
+
+        for gn, nm, sds in ((2, 6, range(262, 282)), (3, 8, range(300, 325))):
+            for sd in sds:
+                try:  # (a start cell without any connection makes generation raise the documented ValueError: that attempt simply ends early)
+                    MazeDataset.generate(MazeDatasetConfig(name="hist-perc", grid_n=gn, n_mazes=nm, seed=sd, maze_ctor=GENERATORS_MAP["gen_percolation"], maze_ctor_kwargs=dict(p=0.5)), gen_parallel=False)
+                except ValueError:
+                    pass
         np.random.rand(3)
         _pyrandom.random()
 
@@ -400,6 +420,12 @@ def _xproc_problem(job):
     try:
         _prehistory(1)
         for j in cfgs:
+            # siblings of the measured configuration (same generator and arguments, other seeds, more mazes) are generated first in THIS process only
+            for ds_ in (220, 221, 222):
+                try:
+                    MazeDataset.from_config(_cfg(dict(j, seed=(j["seed"] or 0) + ds_, n_mazes=5 * j["n_mazes"], filters=[])), load_local=False, save_local=False, do_download=False)
+                except ValueError:
+                    pass
             try:
                 ds = MazeDataset.from_config(_cfg(j), load_local=False, save_local=False, do_download=False)
                 here.append(hashlib.sha256(json.dumps(_dump(ds)).encode()).hexdigest())
@@ -457,10 +483,14 @@ def jobs(tier, seed):
                     k += 1
                     out.append(dict(h="pure", gen=gen, kwargs=kwargs, seed=s, n=n, n_mazes=3 if n >= 3 else 2, endpoint=ep, filters=fl))
     out.append(dict(h="pure", gen="gen_dfs", kwargs={}, seed=2 ** 31 - 1, n=4, n_mazes=3, endpoint={}, filters=[]))
+    # tiny percolation grids: few distinct connection structures, so equal structures with different start cells recur between datasets
+    out.append(dict(h="pure", gen="gen_percolation", kwargs=dict(p=0.5), seed=42, n=2, n_mazes=8, endpoint={}, filters=[]))
+    out.append(dict(h="pure", gen="gen_percolation", kwargs=dict(p=0.5), seed=42, n=3, n_mazes=6, endpoint={}, filters=[]))
     # seed=None: a seed is drawn once, when the configuration object is built; generating from that object is then repeatable like any other
     out.append(dict(h="pure", gen="gen_dfs", kwargs={}, seed=None, n=3, n_mazes=3, endpoint={}, filters=fls[1]))
     out.append(dict(h="pure", gen="gen_dfs_percolation", kwargs=dict(p=0.3), seed=None, n=3, n_mazes=2, endpoint=eps[1], filters=[]))
     pick = [j for j in out if j["seed"] is not None and j["seed"] in (0, 42)][:: (4 if q else 2)]
+    pick += [j for j in out if j["gen"] == "gen_percolation" and j["n"] <= 3 and j["n_mazes"] >= 6 and j not in pick]  # structures that recur between datasets
     out.append(dict(h="xproc", cfgs=[{k: v for k, v in j.items() if k != "h"} for j in pick], hashseeds=[1, 4242] if q else [0, 1, 7, 4242], max_seconds=3000))
     out.sort(key=lambda j: 0 if j["h"] == "xproc" else 1)
     out.append(dict(_alias.ALIAS_JOB))  # results must not alias library state, arguments or each other (props/alias_common.py)
